@@ -60,7 +60,7 @@ def run(ctx, replay=None):
     exhaustive = ['g1', 'g2', 'g3', 'q', 'n3'] if quick else ['g1', 'g2', 'g3', 'q', 'n3', 'c3', 'n4']
     graph_cfgs = ['g1', 'g2', 'g3']
     sim_cfgs = [('n4', 120, 30), ('c3', 120, 30), ('n3', 100, 40)] if quick else \
-               [('n4', 1500, 40), ('c3', 1500, 40), ('n3', 1000, 50), ('q', 500, 40)]
+               [('n4', 600, 40), ('c3', 600, 40), ('n3', 400, 50), ('q', 200, 40)]
     all_traces = []
     for name in exhaustive:
         cfgfile, n = CFGS[name]
